@@ -378,18 +378,17 @@ theorem split_layoutText (r : GbRec) (ℓ : RecLayout) (fnl : Bool) (h : wfLoose
 
 /-- `parse` on the text of a laid-out record, with or without the final newline: what the parser's maps
 keep of it (repeated qualifier keys: the last value) -/
-theorem parse_layoutText_loose (r : GbRec) (ℓ : RecLayout) (fnl : Bool) (h : wfLoose r = true)
-    (hoo : orgOmitted r ℓ = false) :
+theorem parse_layoutText_loose (r : GbRec) (ℓ : RecLayout) (fnl : Bool) (h : wfLoose r = true) :
     parse (layoutText r ℓ fnl) = .ok (toSequenceM r) := by
   unfold parse
   rw [split_layoutText r ℓ fnl h]
-  apply parseLoop_layout_loose r ℓ _ h _ hoo
+  apply parseLoop_layout_loose r ℓ _ h
   intro l hl; cases fnl <;> simp at hl; exact hl
 
 /-- … and with pairwise distinct qualifier keys exactly what the record states -/
-theorem parse_layoutText (r : GbRec) (ℓ : RecLayout) (fnl : Bool) (h : wf r = true) (hoo : orgOmitted r ℓ = false) :
+theorem parse_layoutText (r : GbRec) (ℓ : RecLayout) (fnl : Bool) (h : wf r = true) :
     parse (layoutText r ℓ fnl) = .ok (toSequence r) := by
   obtain ⟨hl, hd⟩ := wf_loose h
-  rw [parse_layoutText_loose r ℓ fnl hl hoo, toSequenceM_eq hd]
+  rw [parse_layoutText_loose r ℓ fnl hl, toSequenceM_eq hd]
 
 end PolyVerif.Lemmas.Genbank
